@@ -213,6 +213,7 @@ type World struct {
 	Logs  []string
 
 	Faults   map[int]error // fault plan for the next request: index among faultable calls → error
+	FaultOps map[string]error // fault plan by operation name (first occurrence in the next request)
 	FailSMS  bool
 	handler  http.Handler
 	cur      *Rec
@@ -462,6 +463,11 @@ func (w *World) backend(op, arg string, write bool) error {
 				err = e
 				c.Result = "fault:" + e.Error()
 				w.cur.FaultsFired++
+			} else if e, ok := w.FaultOps[op]; ok {
+				err = e
+				delete(w.FaultOps, op)
+				c.Result = "fault:" + e.Error()
+				w.cur.FaultsFired++
 			}
 			w.fidx++
 		}
@@ -627,7 +633,33 @@ func (e errHandler) Wrap(h func(http.ResponseWriter, *http.Request) error) http.
 }
 
 // Do runs one request of browser b through the full stack and records everything observable.
-func (w *World) Do(b *Browser, rq Req) *Rec {
+func (w *World) Do(b *Browser, rq Req) *Rec { return w.DoOn(w.handler, b, rq) }
+
+// ProbeHandler is a downstream application handler that records what it can see.
+func (w *World) ProbeHandler(route string) http.Handler {
+	ab := w.AB
+	return http.HandlerFunc(func(rw http.ResponseWriter, r *http.Request) {
+		p := Probe{Ran: true, Route: route, Sess: map[string]string{}}
+		p.UID, _ = ab.CurrentUserID(r)
+		if u, err := ab.CurrentUser(r); err != nil {
+			p.UserErr = err.Error()
+		} else if u != nil {
+			p.UserPID = u.GetPID()
+		}
+		for _, k := range SessionKeys {
+			if v, ok := authboss.GetSession(r, k); ok {
+				p.Sess[k] = v
+			}
+		}
+		w.cur.Probe = p
+		rw.Header().Set("Content-Type", "text/plain")
+		rw.WriteHeader(200)
+		rw.Write([]byte("probe:" + route))
+	})
+}
+
+// DoOn runs one request through an arbitrary handler stack with the same recording as Do.
+func (w *World) DoOn(h http.Handler, b *Browser, rq Req) *Rec {
 	rec := &Rec{Kind: "http", Browser: b.ID, Method: rq.Method, Target: rq.Path, Now: w.now}
 	var body string
 	ct := rq.CT
@@ -688,10 +720,11 @@ func (w *World) Do(b *Browser, rq Req) *Rec {
 				rec.PanicStack = string(debug.Stack())
 			}
 		}()
-		w.handler.ServeHTTP(rr, req)
+		h.ServeHTTP(rr, req)
 	}()
 	w.cur = nil
 	w.Faults = nil
+	w.FaultOps = nil
 	rec.After = w.Store.Snapshot()
 	rec.Status = rr.Code
 	rec.Header = rr.Header().Clone()
